@@ -2313,8 +2313,9 @@ func ackTypes(t int8) []int8 {
 //
 // Entries and gaps are sorted by offset before coalescing so that
 // contiguous same-type ranges merge regardless of insertion order.
-// The two are built separately (gaps are acked immediately so they
-// rarely coalesce with user entries).
+// The two sorted lists are then merged by offset: a gap can sit between
+// two user entries of the same drain, and the broker rejects a
+// partition's batches unless they are ascending and non-overlapping.
 func buildAckRanges(entries []*shareAckState, gaps []shareAckRange) (ranges []shareAckRange, hasRenew bool) {
 	slices.SortFunc(entries, func(a, b *shareAckState) int {
 		return cmp.Compare(a.offset, b.offset)
@@ -2340,6 +2341,10 @@ func buildAckRanges(entries []*shareAckState, gaps []shareAckRange) (ranges []sh
 		lastOffset = e.offset
 		if t == int8(AckRenew) {
 			hasRenew = true
+		}
+		for len(gaps) > 0 && gaps[0].firstOffset < e.offset {
+			ranges = coalesceAppendRange(ranges, gaps[0])
+			gaps = gaps[1:]
 		}
 		ranges = coalesceAppendRange(ranges, shareAckRange{
 			firstOffset:  e.offset,
